@@ -32,6 +32,7 @@ func AllRules() map[string]*Rule {
 		ruleFutIndex(),
 		ruleLeaderExit(),
 		ruleFutResolve(),
+		ruleReplyTerm(),
 	)
 	all = append(all, extraRules()...)
 	for _, r := range all {
@@ -83,14 +84,14 @@ func Properties() map[string]*PropertySpec {
 		},
 		{
 			ID:         "C08",
-			Rules:      []string{"TERM-VOTE", "VOTE-GRANT", "STICKY"},
+			Rules:      []string{"TERM-VOTE", "VOTE-GRANT", "STICKY", "REPLY-TERM"},
 			Thorough:   []string{"STATE-TRANSITIONS"},
 			Decided:    "every store to currentTerm is +1, ≥ currentTerm on all paths, or the value read from storage in restore; votedFor is reset only together with a strict term increase; both are persisted (fatal on error) before leaving the critical section; a prevote changes no term, vote, state, contact time or persistent state",
 			NotDecided: "durability of SetState itself (C13); values seen in replies at run time",
 		},
 		{
 			ID:       "C09",
-			Rules:    []string{"CONF-CHANGE", "CONF-FOLLOW", "QUORUM-SHAPE", "COUNT-VOTES", "CONFIRM-QUORUM", "COMMIT-LEADER", "VOTE-REQUESTS", "STATE-TRANSITIONS"},
+			Rules:    []string{"CONF-CHANGE", "CONF-FOLLOW", "QUORUM-SHAPE", "COUNT-VOTES", "CONFIRM-QUORUM", "COMMIT-LEADER", "VOTE-REQUESTS", "STATE-TRANSITIONS", "SNAP-LABEL"},
 			Thorough: []string{"VOTE-GRANT", "TERM-VOTE"},
 			Decided: "every quorum counter (commit, votes, leadership confirmation) counts voters of the configuration in force at the moment of counting; membership changes are appended only by a leader that committed this term with no pending change, and the appended configuration becomes the one in force; " +
 				"truncation falls back to the committed configuration; restore adopts configuration entries only; only voters campaign and are asked for votes",
